@@ -944,6 +944,60 @@ fn c05_ops<E: Elem, N: ArrayLength>(cx: &mut Ctx) {
                 r
             })
         });
+        // the remaining receiver / argument pairings of zip: the owned (or boxed) side holds the bomb
+        // and is dropped inside the closure while the other side is only borrowed -- these go
+        // through the trait's default `inverted_zip` / `inverted_zip2` bodies, not the specialised ones
+        c05_case(cx, "zip.own_ref_dropping_left", E::NAME, n, "", bomb, arr, |a| {
+            let b = mk::<E, N>();
+            let out: GA<u32, N> = a.zip(&b, |l, _r| {
+                drop(l);
+                1u32
+            });
+            (out, b)
+        });
+        c05_case(cx, "zip.own_mut_dropping_left", E::NAME, n, "", bomb, arr, |a| {
+            let mut b = mk::<E, N>();
+            let out: GA<u32, N> = a.zip(&mut b, |l, _r| {
+                drop(l);
+                1u32
+            });
+            (out, b)
+        });
+        c05_case(cx, "zip.own_ref_keeping_left", E::NAME, n, "", bomb, arr, |a| {
+            // the closure hands the left element straight back: the bomb goes off when the OUTPUT is dropped
+            let b = mk::<E, N>();
+            let out: GA<E, N> = a.zip(&b, |l, _r| l);
+            (out, b)
+        });
+        c05_case(cx, "zip.box_box_dropping_right", E::NAME, n, "", bomb, arr, |b| {
+            let a = mk::<E, N>();
+            Box::new(a).zip(Box::new(b), |l, r| {
+                drop(r);
+                l
+            })
+        });
+        c05_case(cx, "zip.box_box_dropping_both", E::NAME, n, "", bomb, arr, |b| {
+            let a = mk::<E, N>();
+            Box::new(a).zip(Box::new(b), |l, r| {
+                drop(l);
+                drop(r);
+                E::fresh()
+            })
+        });
+        c05_case(cx, "zip.own_own_dropping_both", E::NAME, n, "", bomb, arr, |b| {
+            let a = mk::<E, N>();
+            a.zip(b, |l, r| {
+                drop(r);
+                drop(l);
+                E::fresh()
+            })
+        });
+        c05_case(cx, "map.box_dropping_other_layout", E::NAME, n, "", bomb, arr, |a| {
+            Box::new(a).map(|x| {
+                drop(x);
+                [7u8; 3]
+            })
+        });
         c05_case(cx, "fold.box_dropping", E::NAME, n, "", bomb, arr, |a| {
             Box::new(a).fold(0usize, |acc, x| {
                 drop(x);
